@@ -61,6 +61,23 @@ def generate(seed: int, tier: str = "quick") -> dict:
     tr = common.draw_transport(r_sch, wire_len, spans)
     if tr["kind"] == "socket":
         cfg["bufsize"] = r_sch.choice(sched.BUFSIZES)
+        if r_sch.random() < 0.12:
+            tr["kind"] = "tlssocket"
+    elif r_sch.random() < 0.2:
+        tr = {"kind": "bytesio"}
+    elif r_sch.random() < 0.12:
+        # a serial port that has everything buffered already (pyserial API: read / readline / read_until)
+        tr = {"kind": "serial", "segments": [[0.0, wire_len]] if wire_len else [], "timeout": 1.0}
+    if r_cfg.random() < 0.4:
+        # a second reader with other options is alive (built after this one) while this one is read
+        cfg["decoy"] = True
+        cfg["decoy_policy"] = r_cfg.choice((0, 1, 2))
+        cfg["decoy_msgmode"] = r_cfg.choice((0, 1, 2, 3))
+        cfg["decoy_validate"] = r_cfg.choice((0, 1, 3))
+        cfg["decoy_parsebitfield"] = r_cfg.choice((0, 1))
+        cfg["decoy_labelmsm"] = r_cfg.choice((1, 2))
+        cfg["decoy_protfilter"] = r_cfg.choice((7, 1, 2, 4, 0))
+        cfg["decoy_parsing"] = r_cfg.choice((True, False))
     return {"seed": seed, "config": cfg, "frames": frames, "transport": tr, "pre_faults": dict(pre)}
 
 
@@ -112,7 +129,10 @@ def _run(scn, res=None):
             c.hit(f"pair:{prev}>{st}")
             prev = st
         c.hit(f"pair:{prev}>end")
-        if scn["transport"]["kind"] == "socket":
+        c.hit("transport_" + scn["transport"]["kind"])
+        if cfg.get("decoy"):
+            c.hit("decoy_reader_alive")
+        if scn["transport"]["kind"] in ("socket", "tlssocket"):
             c.hit("socket_runs")
             c.hit(f"socket_end_{scn['transport'].get('end')}")
             spans = sched.spans_of(frames)
